@@ -135,15 +135,17 @@ Definition hd0 (l : list N) : N := match l with [] => 0 | x :: _ => x end.
    position pos; [64|65|66; ...] A's PEER log; [71..76; ...] the same for B;
    [161.. / 171..; pos; LogIndex] the same on a party restored from disk;
    [50; x; y] write-level crash: x / y = first code against "completed" / "did not happen" *)
-Fixpoint check_steps (c : cfg) (s : vsys) (ha0 hb0 : ohl)
-         (l : list (vtstep * obs * obs * option ohl * option ohl)) (i : N) : list N :=
+Fixpoint check_steps (c : cfg) (s : vsys) (oa0 ob0 : obs) (ha0 hb0 : ohl)
+         (l : list (vtstep * option obs * option obs * option ohl * option ohl)) (i : N) : list N :=
   match l with
   | [] => []
-  | (t, oa, ob, oha, ohb) :: r =>
-    (* None = that party's logs are unchanged since the previous step ("=" in the trace) *)
+  | (t, ooa, oob, oha, ohb) :: r =>
+    (* None = that party's dump / logs are unchanged since the previous step ("=" in the trace) *)
+    let oa := match ooa with Some o => o | None => oa0 end in
+    let ob := match oob with Some o => o | None => ob0 end in
     let ha := match oha with Some h => h | None => ha0 end in
     let hb := match ohb with Some h => h | None => hb0 end in
-    let check_steps c s r i := check_steps c s ha hb r i in
+    let check_steps c s r i := check_steps c s oa ob ha hb r i in
     match t with
     | VTOp o e =>
       let '(rs, s') := vstep c s o in
@@ -201,7 +203,7 @@ Fixpoint check_steps (c : cfg) (s : vsys) (ha0 hb0 : ohl)
   end.
 
 Definition vcase := (cfg * (obs * obs) * (ohl * ohl)
-                     * list (vtstep * obs * obs * option ohl * option ohl))%type.
+                     * list (vtstep * option obs * option obs * option ohl * option ohl))%type.
 
 Definition check_case (cs : vcase) : list N :=
   let '(c, (ia, ib), (ha, hb), steps) := cs in
@@ -209,7 +211,7 @@ Definition check_case (cs : vcase) : list N :=
   | None => [0; 20]
   | Some s =>
     match vdiff_sys s ia ib ha hb with
-    | [] => check_steps c s ha hb steps 0
+    | [] => check_steps c s ia ib ha hb steps 0
     | d => 0 :: 20 :: d
     end
   end.
